@@ -182,7 +182,7 @@ class C11:
     exhaustive = None
 
     def budget(self, tier):
-        return 2400 if tier == 'quick' else 60000
+        return 2400 if tier == 'quick' else 28000
 
     def gen_case(self, ch):
         feat = set()
